@@ -591,8 +591,11 @@ impl Stream for SimStream {
                         if !this.ended {
                             this.ended = true;
                             log(Ev::StreamEnd { aidx: this.aidx });
+                            return Poll::Ready(None);
                         }
-                        return Poll::Ready(None);
+                        // a stream need not tolerate being polled after its end; this one does not
+                        log(Ev::StreamPolledAfterEnd { aidx: this.aidx });
+                        std::panic::panic_any(InjectedPanic);
                     }
                     return Poll::Pending;
                 }
